@@ -291,6 +291,9 @@ void BppODiscreteDistributionFormat::writeDiscreteDistribution(
         writeDiscreteDistribution(mix.nDistribution(i), out, globalAliases, writtenNames);
         comma = true;
       }
+      // Probabilities must sum to one when read back: write them with full precision.
+      int p = out.getPrecision();
+      out.setPrecision(15);
       out << ",probas=(";
       for (size_t i = 0; i < nd; ++i)
       {
@@ -299,6 +302,7 @@ void BppODiscreteDistributionFormat::writeDiscreteDistribution(
           out << ",";
       }
       out << ")";
+      out.setPrecision(p);
       for (size_t i = 1; i < nd; ++i)
       {
         writtenNames.push_back(mix.getNamespace() + "theta" + TextTools::toString(i));
@@ -351,6 +355,9 @@ void BppODiscreteDistributionFormat::writeDiscreteDistribution(
     size_t nd = ps.getNumberOfCategories();
     if (comma)
       out << ",";
+    // Probabilities must sum to one when read back: write values and probabilities with full precision.
+    int p = out.getPrecision();
+    out.setPrecision(15);
     out << "values=(";
     for (size_t i = 0; i < nd; ++i)
     {
@@ -366,6 +373,7 @@ void BppODiscreteDistributionFormat::writeDiscreteDistribution(
         out << ",";
     }
     out << ")";
+    out.setPrecision(p);
 
     auto range = ps.getRanges();
     if (range.size() != 0)
